@@ -16,6 +16,16 @@ EXTRA = {
     "C14": "Note: tests/test_clf_pn532.py cannot be run on its own in this sandbox (it patches sys.platform); run the other tests/test_clf_*.py files and compare failing sets with the unchanged code.",
 }
 HINTS = {
+    11: ("For this round pick a code site and a kind of mistake that are DIFFERENT from the ones above - it is round 11 and the "
+         "list above is long, so read it carefully and then read the anchored files completely for code nobody touched.  Kinds of "
+         "mistakes to prefer now: ROLE asymmetry (the change is right for the initiator / client / reader side and wrong for the "
+         "target / server / listening / emulation side, or the reverse); fields that are OPTIONAL in the protocol (absent vs "
+         "present: DID, NAD, CID, general bytes, historical bytes, optional TLVs, optional keyword arguments left at None); "
+         "values >= 128 / >= 256 / exactly a power of two (sign, one- vs two-octet fields, masks that are one bit too narrow); the "
+         "state an object is left in after a FAILED operation when a later operation on the same object succeeds; the second "
+         "use of a code path with different parameters than the first (second tag, second link, different bit rate 106/212/424); "
+         "a change split over TWO places that are each harmless alone; a less common but supported product/driver variant.  "
+         "The change must be something a maintainer could plausibly commit."),
     10: ("For this round pick a code site and a kind of mistake that are DIFFERENT from the ones above - it is round 10 and the "
          "list above is long, so read it carefully and then read the anchored files completely for code nobody touched.  Kinds of "
          "mistakes nobody tried yet: an early `return`/`break` added for an 'impossible' case that is in fact legal; a lock or "
